@@ -197,3 +197,19 @@ PROPS["C16"]["level_text"] = ("Theorems (Props/C16.lean): sortSet_perm_invariant
 PROPS["C18"]["level_text"] = ("Theorems (Props/C18.lean): finish_total_leaf / finish_total_site / finish_total_table (for every reachable site state — any events, any flags, failed clones included — collecting "
     "the changes yields a result), replacements_disjoint_means_total. Every engine's oracle carries the clause finish_total (no exception while collecting / applying, no traceback in real sessions).")
 PROPS["C06"]["level_text"] += " Props/C06b.lean: disabled_identity, inactive_tests_touch_nothing."
+
+PROPS["C03"]["engines"].append(("multifile", {"quick": 40, "thorough": 800}))
+PROPS["C03"]["rule"] = REWRITE_RULE + " ; plus real sessions over projects of 2-3 test files with plain / HasRepr / external creates, list fixes and updates (harness/engines/multifile.py)"
+PROPS["C03"]["cap_s"] = {"quick": 45, "thorough": 500}
+PROPS["C08"]["engines"].append(("values", {"quick": 250, "thorough": 8000}))
+PROPS["C08"]["rule"] = ASSIGN_RULE + " ; plus " + VALUES_RULE
+ENGINES["multifile"] = "real sessions over multi-file projects: import insertion only where needed, bytes outside arguments preserved per file"
+
+CALLS_RULE = ("seeded generator (harness/engines/calls.py): keyword-only constructor calls of a dataclass / attrs class with defaulted fields; keyword values are nested display "
+              "trees with hand-written and unmanaged leaves (also Is(<the field's default>)); the new object changes fields, resets fields to defaults, makes default fields non-default")
+for _p in ("C11", "C02", "C10", "C05"):
+    PROPS[_p]["engines"].append(("calls", {"quick": 1200, "thorough": 30000}))
+    PROPS[_p]["rule"] += " ; plus " + CALLS_RULE
+ENGINES["calls"] = "constructor calls (GenericCallAdapter) vs Model/CallAssign.lean: categories and keyword list after the approved changes; disabled re-run; kept-text oracle"
+PROPS["C11"]["level_text"] += (" Constructor calls (Props/C11c.lean on Model/CallAssign): call_matched_by_key, call_equal_kept, call_kept_keyword_text, call_fix_repairs, "
+                               "call_unmanaged_untouched, call_cats_flags_indep, call_nothing_approved.")
